@@ -10,6 +10,7 @@
 import json
 import os
 import re
+from collections import Counter
 
 from report import AnalysisError, VERIF
 from cfront import (TU, CCFG, CLower, kids, kind, strip, walk, ctext, cliterals, calls_to,
@@ -36,7 +37,12 @@ EXPLANATION = (
     "((fn + A) mod modulo == frame_nr mod modulo, set queued A - 1 frames "
     "ahead; any other comparison of the frame-number remainder with a value "
     "of the row is decided by evaluating it on every table row over one full "
-    "period). Cross-agreement: for every mapped firmware task / direction the "
+    "period; when the scheduling function is written in any other way -- state "
+    "carried between rows, helper functions, other loop forms -- it is executed "
+    "by the checker's own interpreter for every task and every frame number of "
+    "a full period, each value tagged with how it depends on the frame number so "
+    "that one period is a proof for all, and the frames in which the queued "
+    "sets start are compared with the rows). Cross-agreement: for every mapped firmware task / direction the "
     "frame set it triggers in, expanded over lcm(modulo, period), equals the "
     "set of first-burst frames (or owned frames for frame-by-frame tasks) of "
     "the corresponding trxcon channel in every layout the lookup can select; "
@@ -49,6 +55,7 @@ ASSUMPTIONS = [
     "GSM_PCHAN_*_CBCH values of cstubs/host/compat.h (copied from upstream libosmocore)",
     "quick tier: the period-0 entry (GSM_PCHAN_NONE) is never handed to l1sched_configure_ts (decided by the thorough tier: value sets of all call sites)",
     "incrementally maintained lookup index: branch conditions the analysis cannot evaluate are free (both branches possible), a plain frame-number lvalue takes every residue modulo the period, and the layout a timeslot points to is not replaced between the definition of the index and the lookup",
+    "execution of mframe_schedule_set (only used when its trigger is not in one of the recognised normal forms): functions without a visible body neither queue item sets nor modify l1s.current_time, the const tables or the caller's locals; tdma_schedule_set(D, set, ..) starts the set's first burst D frames + the DSP latency after the current frame; l1s.current_time.fn < 2^32 - 2^20",
     "thorough tier: trxcon source files that clang cannot parse here are covered by an identifier scan of their comment-stripped text only (they must not mention `frames`, l1sched_configure_ts, l1sched_mframe_layout)",
 ]
 
@@ -1073,108 +1080,241 @@ def r1_tables(L, T):
 
 # --------------------------------------------------- frame lookup sites
 
+def divisor_values(tu, fname, loc, rhs, base, periods):
+    """{P: value of the divisor expression `rhs` of a lookup index `x % rhs` when <base>->period is P}.
+    Single-definition pure locals are followed, constants folded, C conversions applied; a divisor that
+    reads anything else cannot be related to the layout's period: AnalysisError."""
+    out = {}
+    for P in periods:
+        def leaf(n, P=P):
+            k = kind(n)
+            if k == "MemberExpr":
+                if n.get("name") == "period" and rtext(loc, kids(n)[0]) == base:
+                    return P
+                raise AnalysisError("%s(): the divisor of the frame lookup index reads `%s`, which is not the period of the layout "
+                                    "`%s` the lookup goes through; cannot relate them" % (fname, rtext(loc, n)[:60], base))
+            if k == "DeclRefExpr" and loc.is_local(n):
+                sd = loc.single(n)
+                if sd is not None and not loc.is_param(n) and pure(sd[0]):
+                    return ceval(tu, sd[0], leaf)
+                raise AnalysisError("%s(): the divisor of the frame lookup index depends on `%s`; cannot relate it to the "
+                                    "layout's period" % (fname, ctext(n)))
+            return _NOTHING
+        v = ceval(tu, rhs, leaf)
+        if not isinstance(v, int):
+            raise AnalysisError("%s(): the divisor of the frame lookup index is not an integer" % fname)
+        out[P] = v
+    return out
+
+
+def classify_index(L, rule, relfile, tu, fname, f, g, loc, use, idx, base, periods, via=None):
+    """C11.R1, clause `no frame lookup for any frame number leaves the table` (and `the frame of fn is
+    frames[fn % period]`) for ONE lookup <base>->frames[idx]; `use` is the AST node the lookup happens
+    at (the frames member expression, or the call of a lookup helper when the index is the helper's
+    parameter).  Files the obligation when the index is recognised:
+      x % D       D is evaluated for every layout period P (D == P demanded; `period` in a temporary,
+                  `period + 1`, a constant ... are all decided by value, not by text)
+      constant    inside every table
+      a local maintained incrementally: finite-domain analysis of that variable (IndexRange)
+    and raises AnalysisError for every other shape.  -> (ok, found, form); form is ('param', i) when the
+    index is the function's own unmodified parameter i (nothing filed: decided at the call sites)."""
+    through = " (through %s())" % via if via else ""
+    e = strip(idx)
+    stepwise = (kind(e) == "DeclRefExpr" and loc.is_local(e) and not loc.is_param(e) and loc.single(e) is None) or \
+        (kind(e) == "UnaryOperator" and e.get("opcode") in ("++", "--") and loc.is_local(kids(e)[0]) and
+         not loc.is_param(kids(e)[0]))
+    if stepwise:
+        # index maintained incrementally (several definitions): finite-domain analysis of the variable
+        ok, found = incremental_index(tu, f, g, loc, use, e, base, periods)
+        L.ob(rule, relfile, fname,
+             "frame lookup in the layout `%s`%s: the incrementally maintained index stays within 0..<that layout>->period - 1" % (
+                 base, through),
+             "within 0..period-1 for the periods %s" % ",".join(str(p) for p in periods), found, ok, tu.line(use))
+        return ok, found, "stepwise"
+    hops = 0
+    while kind(e) == "DeclRefExpr" and loc.is_local(e) and not loc.is_param(e) and hops < 6:
+        s = loc.single(e)
+        if s is None:
+            raise AnalysisError("%s(): frame lookup index is a copy of `%s`, which has several definitions; unclassifiable" % (
+                fname, ctext(e)))
+        vd = loc.decl[Locals._ref(e)]
+        vt = vd.get("type", {}).get("qualType", "")
+        if not g.dominates(g.node_of(s[1]), g.node_of(use)):
+            raise AnalysisError("%s(): definition of `%s` does not dominate the frame lookup" % (fname, ctext(e)))
+        if vt in ("int8_t", "char", "signed char", "bool", "_Bool"):
+            L.ob(rule, relfile, fname, "frame lookup: index variable can hold every value below the period",
+                 "type with range >= 0..254", vt, False, tu.line(use))
+        if not pure(s[0]):
+            raise AnalysisError("%s(): frame lookup index `%s` is defined by an expression with side effects; unclassifiable" % (
+                fname, ctext(e)))
+        e = strip(s[0])
+        hops += 1
+    key = "frame lookup in the layout `%s`%s: index is `x %% <that layout>->period`" % (base, through)
+    want = "x %% %s->period" % base
+    if kind(e) == "DeclRefExpr" and loc.is_param(e):
+        pid = Locals._ref(e)
+        if loc.defs.get(pid):
+            raise AnalysisError("%s(): frame lookup index is the parameter `%s`, which the function modifies; unclassifiable" % (
+                fname, ctext(e)))
+        return None, None, ("param", [q["id"] for q in tu.fparams(f)].index(pid))
+    if kind(e) == "BinaryOperator" and e.get("opcode") == "%":
+        rhs = strip(kids(e)[1])
+        ut = e.get("type", {})
+        bt = int_type(tu, ut)
+        if rtext(loc, rhs) == "%s->period" % base:
+            ok, found = True, "x %% %s" % rtext(loc, rhs)
+        else:
+            dv = divisor_values(tu, fname, loc, rhs, base, periods)
+            wrong = sorted((P, d) for P, d in dv.items() if d != P)
+            ok = not wrong
+            found = "x %% %s" % rtext(loc, rhs)
+            if wrong:
+                found += " (period %d: divisor %d)" % wrong[0]
+        if ok and (bt is None or bt[1]):
+            raise AnalysisError("%s(): frame lookup index `%s` is a signed remainder (%s); cannot bound it" % (
+                fname, ctext(e), ut.get("qualType")))
+        L.ob(rule, relfile, fname, key, want, found, ok, tu.line(use))
+        return ok, found, "mod"
+    c = tu.fold(e) if pure(e) else None
+    if c is not None:
+        ok = 0 <= c < min(periods)
+        found = "constant index %d" % c
+        L.ob(rule, relfile, fname,
+             "frame lookup in the layout `%s`%s: a constant index lies inside the table of every layout" % (base, through),
+             "0 <= index < %d" % min(periods), found, ok, tu.line(use))
+        return ok, found, "const"
+    raise AnalysisError("%s(): frame lookup index `%s` is not a remainder expression; unclassifiable" % (fname, ctext(e)[:60]))
+
+
+def frames_uses(tu, fname, f, loc):
+    """[(node standing for the frames pointer, layout expression)] for every use of <layout>->frames in f,
+    including the uses of a local pointer that is defined once as <layout>->frames."""
+    out = []
+    for n in walk(tu.body(f)):
+        if kind(n) == "MemberExpr" and n.get("name") == "frames" and \
+                "l1sched_tdma_multiframe" in strip(kids(n)[0]).get("type", {}).get("qualType", ""):
+            out.append((n, kids(n)[0]))
+    k = 0
+    while k < len(out):
+        m, lay = out[k]
+        k += 1
+        p = tu.parent.get(id(m))
+        while p is not None and kind(p) in ("ImplicitCastExpr", "ParenExpr", "CStyleCastExpr"):
+            p = tu.parent.get(id(p))
+        vid = None
+        if kind(p) == "VarDecl":
+            vid = p.get("id")
+        elif kind(p) == "BinaryOperator" and p.get("opcode") == "=" and any(x is m for x in walk(kids(p)[1])):
+            vid = Locals._ref(kids(p)[0])
+            if vid is None or vid not in loc.decl:
+                raise AnalysisError("%s(): the frames pointer of a layout is stored in `%s`; unclassifiable" % (
+                    fname, ctext(kids(p)[0])[:40]))
+        if vid is None:
+            continue
+        d = loc.defs.get(vid, [])
+        if len(d) != 1 or d[0][0] not in ("init", "assign") or kind(loc.decl.get(vid)) == "ParmVarDecl":
+            raise AnalysisError("%s(): the local `%s` holding a layout's frames pointer has several definitions; unclassifiable" % (
+                fname, loc.decl[vid].get("name")))
+        out[k - 1] = (None, None)       # the definition itself is not a lookup
+        for x in walk(tu.body(f)):
+            if kind(x) == "DeclRefExpr" and Locals._ref(x) == vid:
+                par = tu.parent.get(id(x))
+                if kind(par) == "BinaryOperator" and par.get("opcode") == "=" and strip(kids(par)[0]) is x:
+                    continue        # the defining assignment
+                out.append((x, lay))
+    return [(m, lay) for m, lay in out if m is not None]
+
+
 def lookup_sites(L, tu, relfile, periods, rule="C11.R1"):
     """Every use of <layout>->frames in a parsed TU must be the lookup
-    frames[x % <same layout>->period].  A function whose lookup goes through
+    frames[x % <same layout>->period] (decided by classify_index).  A function whose lookup goes through
     one of its own parameters of type `struct l1sched_tdma_multiframe *`
     (never reassigned) is a lookup helper: the obligation is decided on its
     body once and instantiated at every call site with the caller's layout
-    argument (one level of inlining); call sites count as lookup sites."""
+    argument (one level of inlining); when the index is a parameter of the helper as well, the
+    caller's index argument is classified at every call site.  Call sites count as lookup sites."""
     count = 0
-    helpers = {}       # function name -> (parameter index, parameter name, ok, found-text, line)
+    helpers = {}       # function name -> (layout parameter index, parameter name, ok, found-text, line, index parameter | None)
     for fname, f in body_funcs(tu):
-        uses = [n for n in walk(tu.body(f)) if kind(n) == "MemberExpr" and n.get("name") == "frames" and
-                "l1sched_tdma_multiframe" in strip(kids(n)[0]).get("type", {}).get("qualType", "")]
+        loc = None
+        if not any(kind(n) == "MemberExpr" and n.get("name") == "frames" for n in walk(tu.body(f))):
+            continue
+        loc = Locals(tu, f)
+        uses = frames_uses(tu, fname, f, loc)
         if not uses:
             continue
         L.fn(relfile, fname)
-        loc = Locals(tu, f)
         g = CCFG(tu, f)
         params = tu.fparams(f)
-        for m in uses:
+        for m, lay in uses:
+            child = m
             p = tu.parent.get(id(m))
             while p is not None and kind(p) in ("ImplicitCastExpr", "ParenExpr"):
-                p = tu.parent.get(id(p))
+                child, p = p, tu.parent.get(id(p))
             idx = None
-            if kind(p) == "ArraySubscriptExpr":
-                idx = kids(p)[1]
-            elif kind(p) == "BinaryOperator" and p.get("opcode") == "+":
+            kp = kind(p)
+            if kp == "ArraySubscriptExpr":
                 a, b = kids(p)
                 idx = b if any(x is m for x in walk(a)) else a
-            elif kind(p) == "BinaryOperator" and p.get("opcode") in ("==", "!="):
+            elif kp == "BinaryOperator" and p.get("opcode") == "+":
+                a, b = kids(p)
+                idx = b if any(x is m for x in walk(a)) else a
+            elif (kp == "BinaryOperator" and p.get("opcode") in ("==", "!=", "&&", "||")) or \
+                    (kp == "UnaryOperator" and p.get("opcode") == "!"):
                 continue        # NULL test, not a lookup
+            elif kp in ("IfStmt", "WhileStmt", "DoStmt", "ForStmt") or \
+                    (kp == "ConditionalOperator" and kids(p)[0] is child):
+                continue        # used as a condition: NULL test
             else:
                 raise AnalysisError("%s(): the frames pointer of a layout is used outside a table lookup (%s); unclassifiable" % (
-                    fname, kind(p)))
-            base = rtext(loc, kids(m)[0])
+                    fname, kp))
+            base = rtext(loc, lay)
             # is the layout one of the function's own (never reassigned) parameters?
             hp = None
             for pi, pd in enumerate(params):
                 if pd.get("name") == base and "l1sched_tdma_multiframe" in pd.get("type", {}).get("qualType", "") and \
                         not loc.defs.get(pd["id"]):
                     hp = pi
+            ok, found, form = classify_index(L, rule, relfile, tu, fname, f, g, loc, m, idx, base, periods)
+            ip = None
+            if isinstance(form, tuple):
+                if hp is None:
+                    raise AnalysisError("%s(): the frame lookup index is the function's parameter `%s` but the layout `%s` is not; "
+                                        "unclassifiable" % (fname, params[form[1]].get("name"), base))
+                ip, ok, found = form[1], True, "index parameter"
             if hp is None:
                 count += 1
-            e = strip(idx)
-            stepwise = (kind(e) == "DeclRefExpr" and loc.is_local(e) and not loc.is_param(e) and loc.single(e) is None) or \
-                (kind(e) == "UnaryOperator" and e.get("opcode") in ("++", "--") and loc.is_local(kids(e)[0]) and
-                 not loc.is_param(kids(e)[0]))
-            if stepwise:
-                # index maintained incrementally (several definitions): finite-domain analysis of the variable
-                ok, found = incremental_index(tu, f, g, loc, m, e, base, periods)
-                L.ob(rule, relfile, fname,
-                     "frame lookup in the layout `%s`: the incrementally maintained index stays within 0..<that layout>->period - 1" % base,
-                     "within 0..period-1 for the periods %s" % ",".join(str(p) for p in periods), found, ok, tu.line(m))
-                if hp is not None:
-                    if fname in helpers:
-                        ok = ok and helpers[fname][2]
-                    helpers[fname] = (hp, base, ok, found, tu.line(m))
-                continue
-            if kind(e) == "DeclRefExpr" and loc.is_local(e) and not loc.is_param(e):
-                s = loc.single(e)
-                vd = loc.decl[Locals._ref(e)]
-                vt = vd.get("type", {}).get("qualType", "")
-                if not g.dominates(g.node_of(s[1]), g.node_of(m)):
-                    raise AnalysisError("%s(): definition of `%s` does not dominate the frame lookup" % (fname, ctext(e)))
-                if vt in ("int8_t", "char", "signed char", "bool", "_Bool"):
-                    L.ob(rule, relfile, fname, "frame lookup: index variable can hold every value below the period",
-                         "type with range >= 0..254", vt, False, tu.line(m))
-                e = strip(s[0])
-            key = "frame lookup in the layout `%s`: index is `x %% <that layout>->period`" % base
-            want = "x %% %s->period" % base
-            if kind(e) == "BinaryOperator" and e.get("opcode") == "%":
-                rhs = strip(kids(e)[1])
-                found = "x %% %s" % rtext(loc, rhs)
-                ok = rtext(loc, rhs) == "%s->period" % base
-                ut = e.get("type", {}).get("qualType", "")
-                if ok and not (ut.startswith("unsigned") or ut in ("uint32_t", "uint64_t", "size_t", "uint16_t", "uint8_t")):
-                    raise AnalysisError("%s(): frame lookup index `%s` is a signed remainder (%s); cannot bound it" % (
-                        fname, ctext(e), ut))
             else:
-                if kind(e) in ("CallExpr", "ConditionalOperator"):
-                    raise AnalysisError("%s(): frame lookup index `%s` is not a remainder expression; unclassifiable" % (
-                        fname, ctext(e)[:60]))
-                ok, found = False, ctext(e)[:80]
-            L.ob(rule, relfile, fname, key, want, found, ok, tu.line(m))
-            if hp is not None:
                 if fname in helpers:
-                    # several lookups in one helper: all must hold
+                    # several lookups in one helper: all must hold, and they must agree on the index parameter
+                    if helpers[fname][5] != ip or helpers[fname][0] != hp:
+                        raise AnalysisError("%s(): several frame lookups of different form in one lookup helper; unclassifiable" % fname)
                     ok = ok and helpers[fname][2]
-                helpers[fname] = (hp, base, ok, found, tu.line(m))
+                helpers[fname] = (hp, base, ok, found, tu.line(m), ip)
     # call sites of the helpers, with the caller's layout argument substituted
     if helpers:
         for fname, f in body_funcs(tu):
-            loc = None
-            for hname, (hp, pname, ok, found, hline) in sorted(helpers.items()):
+            loc = g = None
+            for hname, (hp, pname, ok, found, hline, ip) in sorted(helpers.items()):
                 for c in calls_to(tu.body(f), hname):
                     args = call_args(c)
-                    if len(args) <= hp:
+                    if len(args) <= hp or (ip is not None and len(args) <= ip):
                         raise AnalysisError("%s(): call of %s with too few arguments" % (fname, hname))
                     if loc is None:
                         loc = Locals(tu, f)
                         L.fn(relfile, fname)
                     arg = rtext(loc, args[hp])
                     count += 1
+                    if ip is not None:
+                        if fname in helpers:
+                            raise AnalysisError("%s(): lookup helper %s() is called from another lookup helper; unclassifiable" % (
+                                fname, hname))
+                        if g is None:
+                            g = CCFG(tu, f)
+                        _, _, form = classify_index(L, rule, relfile, tu, fname, f, g, loc, c, args[ip], arg, periods, via=hname)
+                        if isinstance(form, tuple):
+                            raise AnalysisError("%s(): the index handed to %s() is itself a parameter; unclassifiable" % (fname, hname))
+                        continue
                     sub = re.sub(r"\b%s\b" % re.escape(pname), lambda _m: arg, found)
                     L.ob(rule, relfile, fname,
                          "frame lookup in the layout `%s` (through %s()): index is `x %% <that layout>->period`" % (arg, hname),
@@ -1206,16 +1346,29 @@ def r1_alloc_by_mask(L, T, tu):
     if len(stores) != 1:
         raise AnalysisError("%s(): expected one store to <lchan state>->type, found %d" % (fname, len(stores)))
     st = stores[0]
-    tv = Locals._ref(kids(st)[1])
+    tnode = strip(kids(st)[1], casts=True)
+    tv = Locals._ref(tnode)
     if tv is None:
         raise AnalysisError("%s(): channel state type is not set from the loop variable" % fname)
     loop = g.loop_of(g.node_of(st))
     if loop is None or kind(loop) != "ForStmt":
         raise AnalysisError("%s(): channel states are not allocated in a for loop" % fname)
     vid, start = induction(tu, loop)
-    L.ob("C11.R1", F_TRX, fname, "channel state allocation loop runs over every channel type from 0",
-         {"loop_var_is_type": True, "start": 0}, {"loop_var_is_type": vid == tv, "start": start},
-         vid == tv and start == 0, tu.line(loop))
+    # the stored type may be a copy of the loop variable made inside the loop body
+    tvs = {tv}
+    while tv != vid and len(tvs) < 5:
+        sd = loc.single(tnode)
+        if sd is None or g.loop_of(g.node_of(sd[1])) is not loop:
+            break
+        tnode = strip(sd[0], casts=True)
+        tv = Locals._ref(tnode)
+        if tv is None:
+            break
+        tvs.add(tv)
+    if tv != vid:
+        raise AnalysisError("%s(): the channel state type is not recognisably the variable of the allocation loop; cannot tell" % fname)
+    L.ob("C11.R1", F_TRX, fname, "channel state allocation loop: the type stored in the channel state is the loop variable",
+         {"loop_var_is_type": True}, {"loop_var_is_type": True}, True, tu.line(loop))
     guards = g.guards(g.node_of(st))
     rel = []
     maskbases = set()
@@ -1226,7 +1379,7 @@ def r1_alloc_by_mask(L, T, tu):
         out, seen, k = [cond], set(), 0
         while k < len(out):
             for x in walk(out[k]):
-                if kind(x) == "DeclRefExpr" and loc.is_local(x) and not loc.is_param(x) and Locals._ref(x) != tv:
+                if kind(x) == "DeclRefExpr" and loc.is_local(x) and not loc.is_param(x) and Locals._ref(x) not in tvs:
                     sd = loc.single(x)
                     if sd is not None and pure(sd[0], calls_ok=True) and id(sd[0]) not in seen and \
                             g.dominates(g.node_of(sd[1]), cnode):
@@ -1239,7 +1392,7 @@ def r1_alloc_by_mask(L, T, tu):
         if cond is None:
             continue
         cl = closure(c, cond)
-        if any(Locals._ref(x) == tv for e in cl for x in walk(e) if kind(x) == "DeclRefExpr"):
+        if any(Locals._ref(x) in tvs for e in cl for x in walk(e) if kind(x) == "DeclRefExpr"):
             rel.append((cond, lab))
             for x in (x for e in cl for x in walk(e)):
                 if kind(x) == "MemberExpr" and x.get("name") == "lchan_mask":
@@ -1264,7 +1417,7 @@ def r1_alloc_by_mask(L, T, tu):
     for m in masks:
         for t in range(T.chan_max + 1):
             def leaf(n, m=m, t=t):
-                if kind(n) == "DeclRefExpr" and Locals._ref(n) == tv:
+                if kind(n) == "DeclRefExpr" and Locals._ref(n) in tvs:
                     return t
                 if kind(n) == "MemberExpr" and n.get("name") == "lchan_mask":
                     return m
@@ -1274,7 +1427,8 @@ def r1_alloc_by_mask(L, T, tu):
                         # the initialiser / right-hand side carries the conversion to the local's type
                         return ceval(tu, sd[0], leaf)
                 return _NOTHING
-            got = all(truth(ceval(tu, c, leaf)) == bool(lab) for c, lab in rel)
+            # the loop starts at `start`: smaller types are never visited
+            got = t >= start and all(truth(ceval(tu, c, leaf)) == bool(lab) for c, lab in rel)
             want = t < T.chan_max and bool(m >> t & 1)
             if got != want and bad is None:
                 bad = "mask 0x%x, type %d (%s): allocated=%s" % (m, t, T.lname.get(t, "?").replace("L1SCHED_", ""), got)
@@ -1285,23 +1439,84 @@ def r1_alloc_by_mask(L, T, tu):
          "equivalent for all %d masks x %d types" % (len(masks), T.chan_max + 1),
          bad or "equivalent for all %d masks x %d types" % (len(masks), T.chan_max + 1), bad is None, tu.line(st))
     # the mask is the one of the layout chosen by l1sched_mframe_layout(config, tn)
-    ps = [p.get("name") for p in tu.fparams(f)]
+    key = "the layout whose lchan_mask is used is l1sched_mframe_layout(<config argument>, <tn argument>)"
+    params = tu.fparams(f)
+    cps = [p for p in params if "gsm_phys_chan_config" in p.get("type", {}).get("qualType", "")]
+    tps = [p for p in params if p not in cps and int_type(tu, p.get("type")) is not None]
+    if len(cps) != 1 or len(tps) != 1 or loc.defs.get(cps[0]["id"]) or loc.defs.get(tps[0]["id"]):
+        raise AnalysisError("%s(): cannot identify the (unmodified) channel combination and timeslot parameters; cannot tell" % fname)
     calls = calls_to(tu.body(f), "l1sched_mframe_layout")
-    descr = []
+    if not calls:
+        raise AnalysisError("%s() does not call l1sched_mframe_layout any more; cannot tell which layout it uses" % fname)
+    cls = set()         # expressions (resolved text) that hold the result of the lookup
     for c in calls:
         p = tu.parent.get(id(c))
-        while p is not None and kind(p) in ("ImplicitCastExpr", "ParenExpr"):
+        while p is not None and kind(p) in ("ImplicitCastExpr", "ParenExpr", "CStyleCastExpr"):
             p = tu.parent.get(id(p))
-        tgt = None
         if kind(p) == "BinaryOperator" and p.get("opcode") == "=":
-            tgt = rtext(loc, kids(p)[0])
+            cls.add(rtext(loc, kids(p)[0]))
         elif kind(p) == "VarDecl":
-            tgt = p.get("name")
-        descr.append((tgt, [ctext(a) for a in call_args(c)]))
-    want = [(b, [ps[2], ps[1]]) for b in sorted(maskbases)] if len(ps) == 3 else None
-    L.ob("C11.R1", F_TRX, fname,
-         "the layout whose lchan_mask is used is l1sched_mframe_layout(<config argument>, <tn argument>)",
-         want, sorted(descr), want is not None and len(want) == 1 and sorted(descr) == want, tu.line(st))
+            cls.add(p.get("name"))
+        else:
+            raise AnalysisError("%s(): the result of l1sched_mframe_layout is not stored (%s); cannot tell which layout is used" % (
+                fname, kind(p)))
+    grew = True
+    while grew:
+        grew = False
+        for n in walk(tu.body(f)):
+            tgt = src = None
+            if kind(n) == "BinaryOperator" and n.get("opcode") == "=":
+                tgt, src = rtext(loc, kids(n)[0]), kids(n)[1]
+            elif kind(n) == "VarDecl":
+                init = [c for c in kids(n) if "Comment" not in (kind(c) or "") and not (kind(c) or "").endswith("Attr")]
+                if init:
+                    tgt, src = n.get("name"), init[0]
+            if tgt is not None and tgt not in cls and kind(strip(src, casts=True)) in ("DeclRefExpr", "MemberExpr") and \
+                    rtext(loc, strip(src, casts=True)) in cls:
+                cls.add(tgt)
+                grew = True
+    stray = sorted(b for b in maskbases if b not in cls)
+    if stray or not maskbases:
+        raise AnalysisError("%s(): the lchan_mask is read from `%s`, which is not recognisably the result of "
+                            "l1sched_mframe_layout; cannot tell" % (fname, ", ".join(stray) or "?"))
+    # the arguments, decided by value for every combination and timeslot 0..7
+    cid, tid = cps[0]["id"], tps[0]["id"]
+    cvals = sorted(set(T.cfg.values()))
+    wit = None
+    for c in calls:
+        args = call_args(c)
+        if len(args) != 2:
+            raise AnalysisError("%s(): l1sched_mframe_layout is called with %d arguments" % (fname, len(args)))
+        if rtext(loc, args[0]) == cps[0].get("name") and rtext(loc, args[1]) == tps[0].get("name"):
+            continue
+        for cv in cvals:
+            for tn in range(8):
+                def leaf(n, cv=cv, tn=tn):
+                    if kind(n) == "DeclRefExpr":
+                        i = Locals._ref(n)
+                        if i == cid:
+                            return cv
+                        if i == tid:
+                            return tn
+                        if i is not None and i in loc.decl:
+                            sd = loc.single(n)
+                            if sd is not None and not loc.is_param(n) and pure(sd[0]) and \
+                                    g.dominates(g.node_of(sd[1]), g.node_of(c)):
+                                return ceval(tu, sd[0], leaf)
+                            raise AnalysisError("%s(): the arguments of l1sched_mframe_layout depend on `%s`; cannot tell" % (
+                                fname, ctext(n)))
+                        return _NOTHING
+                    if kind(n) in ("MemberExpr", "ArraySubscriptExpr"):
+                        raise AnalysisError("%s(): the arguments of l1sched_mframe_layout read `%s`; cannot tell" % (
+                            fname, ctext(n)[:40]))
+                    return _NOTHING
+                got = (ceval(tu, args[0], leaf), ceval(tu, args[1], leaf))
+                if got != (cv, tn) and wit is None:
+                    wit = "configured as (%s, tn %d) but the layout of (%s, tn %s) is looked up: l1sched_mframe_layout(%s, %s)" % (
+                        short_cfg(T.cfg_name(cv)), tn, short_cfg(T.cfg_name(got[0])) if isinstance(got[0], int) else got[0], got[1],
+                        ctext(args[0])[:30], ctext(args[1])[:30])
+    want = "looked up with the function's own (combination, timeslot) for all %d combinations x 8 timeslots" % len(cvals)
+    L.ob("C11.R1", F_TRX, fname, key, want, wit or want, wit is None, tu.line(st))
 
 
 # ================================================= R2: layout lookup model
@@ -1607,10 +1822,12 @@ def r3_fw_tables(L, FW):
     L.floor("C11.R3", "firmware table rows", nrow, 128)
 
 
-def r3_trigger(L, FW, latency):
+def r3_trigger_shape(L, FW, latency):
     """mframe_schedule_set: for every row up to the terminator, the set is
     queued D frames ahead exactly when (fn + A) % modulo == frame_nr % modulo,
-    with A - D == DSP latency: the first burst is in a frame == frame_nr."""
+    with A - D == DSP latency: the first burst is in a frame == frame_nr.
+    Decision by loop shape + expression normal form of the trigger (fast path; r3_trigger falls
+    back to the exact execution of the function when this path does not end in `holds`)."""
     tu = FW.tu
     fname = "mframe_schedule_set"
     f = tu.func(fname)
@@ -1909,6 +2126,764 @@ def trigger_by_rows(L, FW, tu, fname, loc, sid, sname, trig, t, key, call):
          "; ".join(bad) if bad else "for every row: queued exactly in the frames with (fn + %d) mod modulo == frame_nr mod modulo" % A,
          not bad, tu.line(call))
     return A
+
+
+# ------------------------------- R3: exact execution of mframe_schedule_set
+
+class _Probe:
+    """Records the obligations / floors of a rule group instead of filing them (the group's verdict is
+    inspected before it is committed to the ledger)."""
+
+    def __init__(self, L):
+        self.repo = L.repo
+        self.rec = []
+
+    def ob(self, *a, **kw):
+        self.rec.append(("ob", a, kw))
+
+    def require(self, *a, **kw):
+        self.rec.append(("require", a, kw))
+
+    def floor(self, *a, **kw):
+        self.rec.append(("floor", a, kw))
+
+    def fn(self, *a, **kw):
+        self.rec.append(("fn", a, kw))
+
+    def unit(self, *a, **kw):
+        self.rec.append(("unit", a, kw))
+
+    def failed(self):
+        out = []
+        for m, a, kw in self.rec:
+            if m == "ob" and not a[6]:
+                out.append(a)
+            elif m == "require" and a[4] != a[5]:
+                out.append(a)
+            elif m == "floor" and a[2] < a[3]:
+                out.append(a)
+        return out
+
+    def replay(self, L):
+        for m, a, kw in self.rec:
+            getattr(L, m)(*a, **kw)
+
+
+# abstract-concrete values of the executor: (v, dep)
+#   v    int | pointer / memory tuple | None (value the model does not know)
+#   dep  how v depends on the frame number fn the function is executed for:
+#        0 not at all | p > 0 a function of fn mod p | ("L", c) exactly fn + c | "R" in an unmodelled way
+XUNK = (None, 0)
+FN_SUFFIX = "current_time.fn"
+SET_CALL = "tdma_schedule_set"
+
+
+def _dep_join(a, b):
+    if isinstance(a, int) and isinstance(b, int):
+        if a == 0:
+            return b
+        if b == 0:
+            return a
+        return lcm(a, b)
+    return "R"
+
+
+class FwExec:
+    """Exact execution of the firmware function that queues the tdma_sched sets of one multiframe task,
+    for ONE task and ONE frame number: the statement CFG is walked with concrete values (C integer
+    conversions applied), the const tables are read from the extracted initialisers, functions with a
+    visible body are entered, `tdma_schedule_set` records (frame offset, item set).  Every value carries
+    how it depends on the frame number (not / periodically / linearly / otherwise), so that one period
+    of executions is a proof for every frame number: only periodic values may decide a branch.  A branch
+    the model cannot decide (it reads memory outside the model, e.g. l1s.mframe_sched.safe_fn) is
+    passed over: the locals assigned before the branches join again become unknown, and no set may be
+    queued in between -- statements that cannot influence which set is queued are irrelevant whatever
+    they look like."""
+
+    MAX_STEPS = 40000
+    LIN_BOUND = 1 << 20
+
+    def __init__(self, FW, entry):
+        self.FW = FW
+        self.tu = FW.tu
+        self.entry = entry
+        self.fn = 0
+        self.low = 0            # below this frame number a linear value wraps in its C type
+        self.pused = 1          # lcm of the periods of the values that decided something
+        self.calls = []
+        self.steps = 0
+        self._cfg = {}
+        self._fold = {}
+        self._ity = {}
+        self._simple = {}
+        self._havoc = {}
+        self.tables = {}        # name -> rows (incl. terminator / filler rows)
+
+    # ---- static facts
+    def cfg(self, name):
+        r = self._cfg.get(name)
+        if r is None:
+            tu = self.tu
+            f = tu.func(name)
+            g = CCFG(tu, f)
+            volatile = set()
+            for n in walk(tu.body(f)):
+                k = kind(n)
+                tgt = None
+                if k == "BinaryOperator" and n.get("opcode") == "=":
+                    tgt = kids(n)[0]
+                elif k == "CompoundAssignOperator":
+                    tgt = kids(n)[0]
+                elif k == "UnaryOperator" and n.get("opcode") in ("++", "--"):
+                    tgt = kids(n)[0]
+                elif k == "UnaryOperator" and n.get("opcode") == "&":
+                    i = Locals._ref(kids(n)[0])
+                    if i is not None:
+                        volatile.add(i)
+                elif k == "VarDecl" and n.get("storageClass") == "static":
+                    volatile.add(n.get("id"))
+                elif k in ("StmtExpr", "GCCAsmStmt", "AsmStmt"):
+                    raise AnalysisError("%s(): %s; outside the execution model" % (name, k))
+                if tgt is not None and Locals._ref(tgt) is None:
+                    t = strip(tgt)
+                    txt = ctext(t)
+                    bad = "current_time" in txt or "sched_set_for_task" in txt
+                    for x in walk(t):
+                        if "mframe_sched_item" in x.get("type", {}).get("qualType", ""):
+                            bad = True
+                    if kind(t) == "UnaryOperator" and t.get("opcode") == "*":
+                        bad = True      # store through a pointer: the model cannot tell where to
+                    if bad:
+                        raise AnalysisError("%s(): store to `%s`; outside the execution model" % (name, txt[:50]))
+            params = tu.fparams(f)
+            r = self._cfg[name] = (f, g, volatile, params, {})
+        return r
+
+    def visible(self, name):
+        f = self.tu.functions.get(name)
+        return f is not None and any(kind(c) == "CompoundStmt" for c in kids(f))
+
+    def ity(self, n):
+        r = self._ity.get(id(n), _NOTHING)
+        if r is _NOTHING:
+            r = self._ity[id(n)] = int_type(self.tu, n.get("type"))
+        return r
+
+    def wrap(self, n, v):
+        bt = self.ity(n)
+        if bt is None:
+            return v
+        bits, signed = bt
+        if bits == 1:
+            return int(v != 0)
+        v &= (1 << bits) - 1
+        if signed and v >= 1 << (bits - 1):
+            v -= 1 << bits
+        return v
+
+    def rows(self, name):
+        r = self.tables.get(name)
+        if r is None:
+            r = self.tables[name] = self.FW.table(name)["rows"]
+        return r
+
+    def is_table(self, name):
+        v = self.tu.vars.get(name)
+        qt = v.get("type", {}).get("qualType", "") if v else ""
+        return "struct mframe_sched_item" in qt and "*" not in qt and array_extent(qt) is not None
+
+    # ---- expressions
+    def field(self, tname, idx, fld, n):
+        rows = self.rows(tname)
+        if not 0 <= idx < len(rows):
+            raise AnalysisError("%s(): row %d of %s is read, outside the table (%d rows incl. terminator)" % (
+                self.entry, idx, tname, len(rows)))
+        r = rows[idx]
+        if fld == "sched_set":
+            return ((("set", r["set"]), 0) if r["set"] is not None else (0, 0))
+        if fld in ("modulo", "frame_nr", "flags"):
+            return (r[fld], 0)
+        raise AnalysisError("%s(): field %s of a table row is read; outside the execution model" % (self.entry, fld))
+
+    def rvalue(self, val, n):
+        """value of an lvalue of the global memory"""
+        v = val[0]
+        if isinstance(v, tuple) and v[0] == "mem":
+            if v[1].endswith(FN_SUFFIX):
+                return (self.fn, ("L", 0))
+            ty = n.get("type", {})
+            if any(re.sub(r"\b(const|volatile)\b", "", ty.get(q, "")).strip().startswith(("struct ", "union "))
+                   for q in ("qualType", "desugaredQualType")):
+                return val      # a struct copied as a whole: still the same memory (stores to it are rejected)
+            if self.is_table(v[1]):
+                return (("row", v[1], 0), 0)
+            return XUNK
+        return val
+
+    def assign(self, tgt, val, fr):
+        i = Locals._ref(tgt)
+        if i is not None and i in fr["ids"]:
+            fr["v"][i] = val if i not in fr["volatile"] else XUNK
+
+    def read_local(self, n, fr):
+        i = Locals._ref(n)
+        if i is None or i not in fr["ids"]:
+            return None
+        if i in fr["volatile"]:
+            return XUNK
+        v = fr["v"].get(i)
+        if v is None:
+            return XUNK         # declared without an initialiser
+        return v
+
+    def simple(self, n):
+        """no assignment / call inside"""
+        r = self._simple.get(id(n))
+        if r is None:
+            r = self._simple[id(n)] = pure(n)
+        return r
+
+    def ev(self, n, fr):
+        k = n.get("kind")
+        ks = [c for c in n.get("inner", ()) if c]
+        if k in ("ParenExpr", "ConstantExpr") and ks:
+            return self.ev(ks[0], fr)
+        if k in ("IntegerLiteral", "CharacterLiteral", "UnaryExprOrTypeTraitExpr"):
+            c = self._fold.get(id(n), _NOTHING)
+            if c is _NOTHING:
+                c = self._fold[id(n)] = self.tu.fold(n)
+            return (c, 0) if c is not None else XUNK
+        if k in ("ImplicitCastExpr", "CStyleCastExpr") and ks:
+            a = self.ev(ks[0], fr)
+            ck = n.get("castKind")
+            if ck == "LValueToRValue":
+                return self.rvalue(a, n)
+            if ck == "ArrayToPointerDecay":
+                v = a[0]
+                if isinstance(v, tuple) and v[0] == "mem" and self.is_table(v[1]):
+                    return (("row", v[1], 0), 0)
+                return a if isinstance(v, tuple) else XUNK
+            if a[0] is None:
+                return XUNK
+            if ck in ("NoOp", "BitCast", "NullToPointer", "FunctionToPointerDecay"):
+                return a
+            if isinstance(a[0], tuple):
+                if ck == "PointerToBoolean":
+                    return (1, a[1])
+                if ck in ("ToVoid",):
+                    return XUNK
+                return a
+            if ck == "IntegralCast":
+                v = self.wrap(n, a[0])
+                d = a[1]
+                if isinstance(d, tuple):
+                    bt = self.ity(n)
+                    if bt is None or bt[0] < 32:
+                        d = "R"
+                return (v, d)
+            if ck in ("IntegralToBoolean", "PointerToBoolean"):
+                return (int(a[0] != 0), a[1] if isinstance(a[1], int) else "R")
+            if ck == "ToVoid":
+                return XUNK
+            if ck in ("IntegralToPointer", "PointerToIntegral"):
+                return a if a[0] == 0 else XUNK
+            return XUNK
+        if k == "DeclRefExpr":
+            rd = n.get("referencedDecl", {})
+            rk = rd.get("kind")
+            if rk == "EnumConstantDecl":
+                v = self.tu.enums.get(rd.get("name"))
+                return (v, 0) if v is not None else XUNK
+            if rk in ("VarDecl", "ParmVarDecl"):
+                r = self.read_local(n, fr)
+                if r is not None:
+                    return r
+                v = self.tu.by_id.get(rd.get("id"))
+                if v is not None and "const" in v.get("type", {}).get("qualType", "") and \
+                        int_type(self.tu, v.get("type")) is not None:
+                    c = self.tu.fold(n)
+                    if c is not None:
+                        return (c, 0)
+                return (("mem", rd.get("name")), 0)
+            return XUNK
+        if k == "MemberExpr" and ks:
+            b = self.ev(ks[0], fr)
+            v = b[0]
+            if isinstance(v, tuple):
+                if v[0] == "row" and n.get("isArrow"):
+                    f = self.field(v[1], v[2], n.get("name"), n)
+                    return (f[0], _dep_join(f[1], b[1]))
+                if v[0] == "rowv" and not n.get("isArrow"):
+                    f = self.field(v[1], v[2], n.get("name"), n)
+                    return (f[0], _dep_join(f[1], b[1]))
+                if v[0] == "mem" and not n.get("isArrow"):
+                    return (("mem", "%s.%s" % (v[1], n.get("name"))), b[1])
+                if v[0] == "ptr" and n.get("isArrow"):
+                    return (("mem", "%s.%s" % (v[1], n.get("name"))), b[1])
+            return XUNK
+        if k == "ArraySubscriptExpr" and len(ks) == 2:
+            b, i = self.ev(ks[0], fr), self.ev(ks[1], fr)
+            if isinstance(b[0], int) and isinstance(i[0], tuple):
+                b, i = i, b
+            v = b[0]
+            if isinstance(v, tuple) and isinstance(i[0], int):
+                d = _dep_join(b[1], i[1])
+                if v[0] == "mem" and v[1] == "sched_set_for_task":
+                    FW = self.FW
+                    if not 0 <= i[0] < (FW.map_dim or 0):
+                        raise AnalysisError("%s(): sched_set_for_task[%d] is read, outside the array" % (self.entry, i[0]))
+                    nm = FW.task_table[i[0]] if i[0] < len(FW.task_table) else None
+                    return ((("row", nm, 0), d) if nm is not None else (0, d))
+                if v[0] == "row":
+                    return (("rowv", v[1], v[2] + i[0]), d)
+            return XUNK
+        if k == "UnaryOperator" and ks:
+            op = n.get("opcode")
+            if op in ("++", "--"):
+                old = self.ev(ks[0], fr)
+                i = Locals._ref(ks[0])
+                if i is None or i not in fr["ids"]:
+                    return XUNK
+                dlt = 1 if op == "++" else -1
+                if old[0] is None:
+                    new = XUNK
+                elif isinstance(old[0], tuple):
+                    new = ((("row", old[0][1], old[0][2] + dlt), old[1]) if old[0][0] == "row" else XUNK)
+                else:
+                    new = self.arith("+", old, (dlt, 0), ks[0])
+                self.assign(ks[0], new, fr)
+                return old if n.get("isPostfix") else new
+            a = self.ev(ks[0], fr)
+            v = a[0]
+            if op == "&":
+                if isinstance(v, tuple) and v[0] == "mem":
+                    return (("ptr", v[1]), a[1])
+                if isinstance(v, tuple) and v[0] == "rowv":
+                    return (("row", v[1], v[2]), a[1])
+                return XUNK
+            if op == "*":
+                if isinstance(v, tuple) and v[0] == "row":
+                    return (("rowv", v[1], v[2]), a[1])
+                if isinstance(v, tuple) and v[0] == "ptr":
+                    return (("mem", v[1]), a[1])
+                return XUNK
+            if v is None:
+                return XUNK
+            d = a[1] if isinstance(a[1], int) else "R"
+            if isinstance(v, tuple):
+                return (0, d) if op == "!" else XUNK
+            if op == "-":
+                return (self.wrap(n, -v), d)
+            if op == "+":
+                return (v, a[1])
+            if op == "~":
+                return (self.wrap(n, ~v), d)
+            if op == "!":
+                return (int(not v), d)
+            return XUNK
+        if k == "BinaryOperator" and len(ks) == 2:
+            op = n.get("opcode")
+            l, r = ks
+            if op == "=":
+                val = self.ev(r, fr)
+                if Locals._ref(l) is None:
+                    self.ev(l, fr)      # side effects of the target expression only
+                self.assign(l, val, fr)
+                return val
+            if op == ",":
+                self.ev(l, fr)
+                return self.ev(r, fr)
+            if op in ("&&", "||"):
+                a = self.ev(l, fr)
+                if a[0] is None or not isinstance(a[1], int):
+                    if not self.simple(r):
+                        raise AnalysisError("%s(): `%s` is evaluated under a condition the model cannot decide (%s)" % (
+                            self.entry, ctext(r)[:50], ctext(l)[:50]))
+                    b = self.ev(r, fr)
+                    if b[0] is not None and isinstance(b[1], int) and truth(b[0]) == (op == "||"):
+                        return (int(op == "||"), b[1])
+                    return XUNK
+                if truth(a[0]) == (op == "||"):
+                    return (int(op == "||"), a[1])
+                b = self.ev(r, fr)
+                if b[0] is None:
+                    return XUNK
+                return (int(truth(b[0])), _dep_join(a[1], b[1]))
+            a, b = self.ev(l, fr), self.ev(r, fr)
+            return self.arith(op, a, b, n)
+        if k == "CompoundAssignOperator" and len(ks) == 2:
+            l, r = ks
+            old, b = self.ev(l, fr), self.ev(r, fr)
+            i = Locals._ref(l)
+            if i is None or i not in fr["ids"]:
+                return XUNK
+            op = n.get("opcode")[:-1]
+            if isinstance(old[0], tuple):
+                if old[0][0] == "row" and isinstance(b[0], int) and op in ("+", "-"):
+                    new = (("row", old[0][1], old[0][2] + (b[0] if op == "+" else -b[0])), _dep_join(old[1], b[1]))
+                else:
+                    new = XUNK
+            else:
+                # computed in computeResultType, stored in the variable's type
+                crt = n.get("computeResultType") or n.get("type")
+                new = self.arith(op, old, b, {"type": crt})
+                if new[0] is not None and not isinstance(new[0], tuple):
+                    v2 = cwrap(self.tu, new[0], n.get("type"))
+                    d2 = new[1]
+                    bt = int_type(self.tu, n.get("type"))
+                    if isinstance(d2, tuple) and (bt is None or bt[0] < 32):
+                        d2 = "R"
+                    new = (v2, d2)
+            self.assign(l, new, fr)
+            return new
+        if k == "ConditionalOperator" and len(ks) == 3:
+            c = self.ev(ks[0], fr)
+            if c[0] is None or not isinstance(c[1], int):
+                if not (self.simple(ks[1]) and self.simple(ks[2])):
+                    raise AnalysisError("%s(): `%s` has side effects under a condition the model cannot decide" % (
+                        self.entry, ctext(n)[:50]))
+                x, y = self.ev(ks[1], fr), self.ev(ks[2], fr)
+                if x == y and x[0] is not None and isinstance(x[1], int):
+                    return x
+                return XUNK
+            x = self.ev(ks[1] if truth(c[0]) else ks[2], fr)
+            if x[0] is None:
+                return XUNK
+            if isinstance(x[1], int):
+                return (x[0], _dep_join(c[1], x[1]))
+            return (x[0], x[1] if c[1] == 0 else "R")
+        if k == "CallExpr" and ks:
+            return self.call(n, ks, fr)
+        if k in ("StmtExpr",):
+            raise AnalysisError("%s(): statement expression; outside the execution model" % self.entry)
+        # anything else: side effects of the operands, value unknown
+        for c in ks:
+            if isinstance(c, dict) and not self.simple(c):
+                self.ev(c, fr)
+        return XUNK
+
+    def arith(self, op, a, b, n):
+        va, vb = a[0], b[0]
+        if va is None or vb is None:
+            return XUNK
+        da, db = a[1], b[1]
+        if isinstance(va, tuple) or isinstance(vb, tuple):
+            d = _dep_join(da, db)
+            if op in ("==", "!="):
+                eq = va == vb
+                return (int(eq if op == "==" else not eq), d)
+            if isinstance(va, tuple) and va[0] == "row":
+                if isinstance(vb, int) and op in ("+", "-"):
+                    return (("row", va[1], va[2] + (vb if op == "+" else -vb)), d)
+                if isinstance(vb, tuple) and vb[0] == "row" and vb[1] == va[1]:
+                    if op == "-":
+                        return (va[2] - vb[2], d)
+                    if op in ("<", ">", "<=", ">="):
+                        return (_arith(op, va[2], vb[2]), d)
+            if isinstance(vb, tuple) and vb[0] == "row" and isinstance(va, int) and op == "+":
+                return (("row", vb[1], vb[2] + va), d)
+            return XUNK
+        try:
+            v = _arith(op, va, vb)
+        except (ZeroDivisionError, ValueError, OverflowError):
+            raise AnalysisError("%s(): undefined arithmetic in `%s` (%s %s %s)" % (
+                self.entry, ctext(n)[:50] if "kind" in n else op, va, op, vb))
+        if op in ("<<",) and vb > 64:
+            raise AnalysisError("%s(): shift by %d" % (self.entry, vb))
+        cmpop = op in ("<", ">", "<=", ">=", "==", "!=")
+        if not cmpop:
+            v = self.wrap(n, v) if "kind" in n else cwrap(self.tu, v, n.get("type"))
+        # dependence on the frame number
+        if isinstance(da, int) and isinstance(db, int):
+            return (v, _dep_join(da, db))
+        if not cmpop:
+            if isinstance(da, tuple) and db == 0:
+                if op == "+" and abs(da[1] + vb) <= self.LIN_BOUND:
+                    return (v, ("L", da[1] + vb))
+                if op == "-" and abs(da[1] - vb) <= self.LIN_BOUND:
+                    return (v, ("L", da[1] - vb))
+            if isinstance(db, tuple) and da == 0 and op == "+" and abs(db[1] + va) <= self.LIN_BOUND:
+                return (v, ("L", db[1] + va))
+            if op == "%" and isinstance(da, tuple) and isinstance(db, int) and vb > 0:
+                bt = self.ity(n) if "kind" in n else int_type(self.tu, n.get("type"))
+                if bt is not None and bt[0] >= 32:
+                    # (fn + c) % d: a function of fn mod d once fn + c no longer wraps
+                    if -da[1] > self.low:
+                        self.low = -da[1]
+                    return (v, lcm(vb, db or 1))
+        return (v, "R")
+
+    def call(self, n, ks, fr):
+        callee = strip(ks[0])
+        rd = callee.get("referencedDecl", {}) if kind(callee) == "DeclRefExpr" else {}
+        name = rd.get("name") if rd.get("kind") == "FunctionDecl" else None
+        args = [self.ev(a, fr) for a in ks[1:]]
+        if name is None:
+            raise AnalysisError("%s(): indirect call `%s`; outside the execution model" % (self.entry, ctext(n)[:50]))
+        if name == SET_CALL:
+            if len(args) != 3:
+                raise AnalysisError("%s call has %d arguments" % (SET_CALL, len(args)))
+            D, S = args[0], args[1]
+            if not isinstance(D[0], int) or D[1] != 0:
+                raise AnalysisError("%s(): frame offset `%s` of %s is not a frame-number independent integer" % (
+                    self.entry, ctext(ks[1])[:40], SET_CALL))
+            if not (isinstance(S[0], tuple) and S[0][0] == "set") or not isinstance(S[1], int):
+                raise AnalysisError("%s(): cannot identify the item set `%s` handed to %s" % (
+                    self.entry, ctext(ks[2])[:40], SET_CALL))
+            self.pused = lcm(self.pused, S[1] or 1)
+            self.calls.append((D[0], S[0][1]))
+            return XUNK
+        if self.visible(name):
+            if fr["depth"] >= 4:
+                raise AnalysisError("%s(): calls nested too deeply at %s()" % (self.entry, name))
+            return self.run(name, args, fr["depth"] + 1)
+        return XUNK
+
+    # ---- statements
+    def havoc_info(self, fname, g, node, cache):
+        r = cache.get(node.id)
+        if r is not None:
+            return r
+        pd = cache.get("pdom")
+        if pd is None:
+            pd = cache["pdom"] = postdominators(g)
+        stop = pd[node.id] - {node.id}
+        seen, todo = {}, [s for s, _ in node.succ]
+        conts = {}
+        while todo:
+            x = todo.pop()
+            if x.id in seen:
+                continue
+            if x.id in stop:
+                # the first strict postdominator met on any path is the immediate postdominator
+                conts[x.id] = x
+                continue
+            seen[x.id] = x
+            todo.extend(s for s, _ in x.succ)
+        if len(conts) != 1:
+            raise AnalysisError("%s(): a condition the model cannot decide has no unique join point" % fname)
+        cont = list(conts.values())[0]
+        assigned, danger = set(), None
+        for x in seen.values():
+            host = x.cond if x.kind in ("cond", "switch") else x.ast
+            if host is None or kind(host) == "DoHead":
+                continue
+            for y in walk(host):
+                ky = kind(y)
+                if ky == "VarDecl":
+                    assigned.add(y.get("id"))
+                elif (ky == "BinaryOperator" and y.get("opcode") == "=") or ky == "CompoundAssignOperator" or \
+                        (ky == "UnaryOperator" and y.get("opcode") in ("++", "--")):
+                    i = Locals._ref(kids(y)[0])
+                    if i is not None:
+                        assigned.add(i)
+                elif ky == "CallExpr":
+                    c = strip(kids(y)[0])
+                    nm = c.get("referencedDecl", {}).get("name") if kind(c) == "DeclRefExpr" else None
+                    if nm is None or nm == SET_CALL or self.visible(nm):
+                        danger = danger or ("%s()" % nm if nm else "an indirect call")
+        r = cache[node.id] = (assigned, danger, cont)
+        return r
+
+    def run(self, fname, args, depth=0):
+        f, g, volatile, params, cache = self.cfg(fname)
+        if len(args) != len(params):
+            raise AnalysisError("%s() is called with %d arguments" % (fname, len(args)))
+        fr = {"v": {}, "ids": None, "volatile": volatile, "depth": depth}
+        ids = cache.get("ids")
+        if ids is None:
+            ids = cache["ids"] = {p["id"] for p in params} | {x["id"] for x in walk(self.tu.body(f)) if kind(x) == "VarDecl"}
+        fr["ids"] = ids
+        for p, a in zip(params, args):
+            fr["v"][p["id"]] = a
+        node = g.entry
+        while True:
+            self.steps += 1
+            if self.steps > self.MAX_STEPS:
+                raise AnalysisError("%s(): the execution does not terminate within %d steps (frame number %d)" % (
+                    self.entry, self.MAX_STEPS, self.fn))
+            if node is g.exit:
+                return XUNK
+            k = node.kind
+            if k == "stmt":
+                a = node.ast
+                ak = a.get("kind")
+                if ak == "ReturnStmt":
+                    ks = kids(a)
+                    return self.ev(ks[0], fr) if ks else XUNK
+                if ak == "DeclStmt":
+                    for vd in kids(a):
+                        if kind(vd) != "VarDecl":
+                            continue
+                        init = [c for c in kids(vd) if "Comment" not in (kind(c) or "") and not (kind(c) or "").endswith("Attr")]
+                        if vd.get("storageClass") == "static":
+                            continue
+                        fr["v"][vd["id"]] = self.ev(init[0], fr) if init else None
+                elif ak in ("BreakStmt", "ContinueStmt", "GotoStmt", "DoHead", "NullStmt"):
+                    pass
+                else:
+                    self.ev(a, fr)
+            elif k in ("cond", "switch"):
+                c = getattr(node, "cond", None)
+                if c is not None and not c.get("kind"):
+                    c = None        # `for (;;)`: clang prints an empty node for the absent condition
+                v = (1, 0) if c is None else self.ev(c, fr)
+                if v[0] is None or not isinstance(v[1], int) or (k == "switch" and not isinstance(v[0], int)):
+                    assigned, danger, cont = self.havoc_info(fname, g, node, cache)
+                    if danger is not None:
+                        raise AnalysisError(
+                            "%s(): %s is called under the condition `%s`, which the execution model cannot decide "
+                            "as a periodic function of the frame number; cannot tell in which frames the sets are queued" % (
+                                fname, danger, ctext(c)[:60] if c is not None else "?"))
+                    for i in assigned:
+                        if i in fr["ids"]:
+                            fr["v"][i] = XUNK
+                    node = cont
+                    continue
+                self.pused = lcm(self.pused, v[1] or 1)
+                if k == "cond":
+                    t = truth(v[0])
+                    nxt = [s for s, l in node.succ if bool(l) == t]
+                else:
+                    nxt = [s for s, l in node.succ if isinstance(l, tuple) and l[1] == v[0]] or \
+                          [s for s, l in node.succ if l in ("default", "nodefault")]
+                if len(nxt) != 1:
+                    raise AnalysisError("%s(): CFG branch without a unique successor" % fname)
+                node = nxt[0]
+                continue
+            if len(node.succ) != 1:
+                if not node.succ:
+                    return XUNK
+                raise AnalysisError("%s(): CFG node with %d successors" % (fname, len(node.succ)))
+            node = node.succ[0][0]
+
+    def execute(self, task_val, fn):
+        self.fn = fn
+        self.calls = []
+        self.steps = 0
+        self.run(self.entry, [(task_val, 0)])
+        return self.calls
+
+
+def r3_trigger_exec(L, FW, latency, why):
+    """C11.R3, clause `the frames in which the firmware starts a block are exactly the frames ==
+    frame_nr (mod modulo) of the task's rows`, decided by executing mframe_schedule_set itself (FwExec)
+    for every task that has a table and every frame number of one full period of the task (the lcm of
+    its rows' moduli and of every period a deciding value had; preceded by the frame numbers below
+    which a linear value wraps): the set queued in frame fn with frame offset D starts its first burst
+    in frame fn + D + <DSP latency>.  Per task and item set, the multiset of start frames (mod the
+    period) must equal the multiset {f : f == frame_nr (mod modulo)} over the rows with that set up
+    to the terminator."""
+    tu = FW.tu
+    fname = "mframe_schedule_set"
+    tu.func(fname)
+    L.fn(F_FW, fname)
+    ps = tu.fparams(tu.func(fname))
+    if len(ps) != 1:
+        raise AnalysisError("%s() signature changed" % fname)
+    X_ = FwExec(FW, fname)
+    bad = []
+    negD = set()
+    ntasks = nrows = nexec = 0
+    for task in sorted(FW.tasks, key=lambda q: FW.tasks[q]):
+        tab, rows = FW.task_rows(task)
+        if tab is None or any(r["modulo"] < 1 for r in rows):
+            continue          # reported by r3_fw_tables
+        ntasks += 1
+        nrows += len(rows)
+        S = 1
+        for r in rows:
+            S = lcm(S, r["modulo"])
+        for _round in range(5):
+            X_.low, X_.pused = 0, 1
+            obs = []
+            lo, span = 0, S
+            fn0 = 0
+            while fn0 < lo + span:
+                obs.append(X_.execute(FW.tasks[task], fn0))
+                nexec += 1
+                fn0 += 1
+                lo = X_.low
+                if lo + span > 400000:
+                    raise AnalysisError("%s(): too many frame numbers to execute for %s" % (fname, task))
+            if S % X_.pused == 0:
+                break
+            S = lcm(S, X_.pused)
+        else:
+            raise AnalysisError("%s(): the period of %s does not settle" % (fname, task))
+        low = X_.low
+        want = {}
+        for r in rows:
+            c = want.setdefault(r["set"], Counter())
+            for f in range(r["frame_nr"] % r["modulo"], S, r["modulo"]):
+                c[f] += 1
+        got = {}
+        for fn0 in range(low, low + S):
+            for D, sname in obs[fn0]:
+                if D < 0:
+                    negD.add(D)
+                got.setdefault(sname, Counter())[(fn0 + D + latency) % S] += 1
+        for sname in sorted(set(want) | set(got)):
+            w, g_ = want.get(sname, Counter()), got.get(sname, Counter())
+            if w != g_ and len(bad) < 4:
+                ws, gs = set(w), set(g_)
+                dup = sorted(f for f, c in g_.items() if c != w.get(f, c))
+                bad.append("%s (%s): first burst of %s in frames mod %d = %s, required %s%s" % (
+                    task, tab["name"], sname, S, fmt_set(gs), fmt_set(ws),
+                    "" if ws != gs else "; queued %s times for frame %d" % (g_[dup[0]], dup[0])))
+        # frame numbers below `low` (a linear value wraps there): decided one by one
+        Dset = {D for o in obs[low:] for D, _ in o}
+        if low and len(Dset) > 1:
+            raise AnalysisError("%s(): the frame offset handed to %s varies (%s) and an intermediate value wraps for "
+                                "fn < %d; cannot tell" % (fname, SET_CALL, sorted(Dset), low))
+        for fn0 in range(0, low if Dset else 0):
+            D0 = list(Dset)[0]
+            g1 = sorted(((fn0 + D + latency), sname) for D, sname in obs[fn0])
+            w1 = sorted((fn0 + D0 + latency, r["set"]) for r in rows
+                        if (fn0 + D0 + latency) % r["modulo"] == r["frame_nr"] % r["modulo"])
+            if g1 != w1 and len(bad) < 4:
+                bad.append("%s (%s) at fn %d: sets starting %s are queued, required %s (an intermediate value wraps "
+                           "in its C type for fn < %d)" % (task, tab["name"], fn0, g1[:4], w1[:4], low))
+    L.floor("C11.R3", "firmware tasks mframe_schedule_set is executed for", ntasks, 28)
+    L.floor("C11.R3", "table rows the trigger is evaluated on", nrows, 128)
+    ref = "equal frame sets for all %d tasks" % ntasks
+    L.ob("C11.R3", F_FW, fname,
+         "trigger and scheduling distance (function executed for every task and every frame of a full period): a set queued "
+         "at fn with frame offset D starts its first burst in fn + D + <DSP latency>; per task and item set these frames are "
+         "exactly the frames == frame_nr (mod modulo) of the task's rows with that set, each once",
+         ref, "; ".join(bad) if bad else ref, not bad, tu.line(tu.func(fname)),
+         note="shape analysis: %s" % why[:200] if why else None)
+    L.ob("C11.R3", F_FW, fname, "frame offset D of tdma_schedule_set is never negative", [], sorted(negD), not negD,
+         tu.line(tu.func(fname)))
+    return nexec
+
+
+def r3_trigger(L, FW, latency):
+    """C11.R3 for mframe_schedule_set.  Fast path: loop shape + normal form of the trigger condition
+    (r3_trigger_shape).  When that path does not end in `holds` -- a construct it does not recognise or a
+    shape obligation that fails -- the verdict is taken from the exact execution of the function
+    (r3_trigger_exec), which does not depend on how the code is written; only if the execution model
+    cannot run the function either there is no verdict."""
+    P = _Probe(L)
+    err = None
+    try:
+        r3_trigger_shape(P, FW, latency)
+    except AnalysisError as e:
+        err = e
+    failed = P.failed()
+    if err is None and not failed:
+        P.replay(L)
+        return
+    if err is not None:
+        why = str(err)
+    elif len(failed[0]) >= 7:
+        why = "`%s`: found %s" % (failed[0][3], failed[0][5])
+    else:
+        why = "floor `%s`: found %s" % (failed[0][1], failed[0][2])
+    try:
+        r3_trigger_exec(L, FW, latency, why)
+    except AnalysisError as e2:
+        raise AnalysisError("%s [the shape analysis of mframe_schedule_set ended with: %s]" % (e2, why[:300]))
 
 
 # ====================================================== R4: cross-agreement
@@ -2339,7 +3314,40 @@ def s_trx_tu(L):
 
 def s_lookup_sites(L, T, tu_trx):
     nsites = lookup_sites(L, tu_trx, F_TRX, layout_periods(T))
-    L.floor("C11.R1", "frame lookup sites in sched_trx.c", nsites, 4)
+    # 4 on the unchanged tree.  How many places look a frame up legitimately varies (lookups merged into a
+    # common function); the floor only guards against a vacuous pass -- every use of a layout's frames
+    # pointer that is not a recognised lookup is an analysis error of its own, and the Rx / Tx entry points
+    # must still reach one.
+    L.floor("C11.R1", "frame lookup sites in sched_trx.c", nsites, 1)
+    reach = lookup_reach(tu_trx)
+    for anchor in ("l1sched_pull_burst", "l1sched_handle_rx_burst"):
+        tu_trx.func(anchor)
+        L.floor("C11.R1", "frame lookups reached from %s()" % anchor, int(anchor in reach), 1)
+
+
+def lookup_reach(tu):
+    """names of the functions of the TU from which a use of <layout>->frames is reached through direct calls"""
+    direct, callees = set(), {}
+    for fname, f in body_funcs(tu):
+        cs = set()
+        for n in walk(tu.body(f)):
+            if kind(n) == "MemberExpr" and n.get("name") == "frames" and \
+                    "l1sched_tdma_multiframe" in strip(kids(n)[0]).get("type", {}).get("qualType", ""):
+                direct.add(fname)
+            elif kind(n) == "CallExpr":
+                c = strip(kids(n)[0])
+                if kind(c) == "DeclRefExpr":
+                    cs.add(c.get("referencedDecl", {}).get("name"))
+        callees[fname] = cs
+    reach = set(direct)
+    grew = True
+    while grew:
+        grew = False
+        for fname, cs in callees.items():
+            if fname not in reach and cs & reach:
+                reach.add(fname)
+                grew = True
+    return reach
 
 
 def s_cross(L, T, FW, r2, M, S):
